@@ -17,6 +17,9 @@ import shutil
 import subprocess
 import sys
 
+CHECK_ONLY = "--check-only" in sys.argv       # keep the earlier confirmation (made on the base the change was written for)
+if CHECK_ONLY:
+    sys.argv.remove("--check-only")
 pid = sys.argv[1].upper()
 wt = f"/tmp/seed-{pid.lower()}"
 ks = sys.argv[2:] or sorted(os.listdir(f"{wt}/out"))
@@ -50,29 +53,43 @@ for k in ks:
     ex_cmd, demo_cmd = norm(ex_cmd), norm(demo_cmd)
     for c in (ex_cmd, demo_cmd):
         assert c.startswith("cargo test"), c
-    jobs = " -j6"
+    def with_jobs(c):
+        return c if " -j" in c else c.replace("cargo test", "cargo test -j6", 1)
     res = {}
     clean()
-    rc, o = sh(f"git apply {out}/demo.diff || git apply --3way {out}/demo.diff")
-    if rc != 0:
-        print(f"{pid}-{k}: demo.diff does not apply on /repo HEAD: {o[-300:]}", flush=True)
+    prev = {}
+    if os.path.exists(f"/verif/seeded/{pid}-{k}/meta.json"):
+        prev = json.load(open(f"/verif/seeded/{pid}-{k}/meta.json")).get("confirmed_by_integrator", {})
+    if CHECK_ONLY and prev.get("demo_fails_with_patch") and prev.get("demo_passes_without_patch") and prev.get("existing_tests_pass_with_patch", True):
+        res = {kk: prev[kk] for kk in ("demo_passes_without_patch", "demo_fails_with_patch", "existing_tests_pass_with_patch") if kk in prev}
+        res["note"] = "confirmation from the first run (on the /repo commit the change was written against); this run only re-ran the check at /repo HEAD"
+    if "note" in res:
+        rc, o = sh(f"git apply {out}/patch.diff || git apply --3way {out}/patch.diff")
+        if rc != 0:
+            print(f"{pid}-{k}: patch.diff does not apply on /repo HEAD: {o[-300:]}", flush=True)
+            clean()
+            continue
+    else:
+        rc, o = sh(f"git apply {out}/demo.diff || git apply --3way {out}/demo.diff")
+        if rc != 0:
+            print(f"{pid}-{k}: demo.diff does not apply on /repo HEAD: {o[-300:]}", flush=True)
+            clean()
+            continue
+        rc, o = sh(with_jobs(demo_cmd))
+        res["demo_passes_without_patch"] = rc == 0
+        rc, o = sh(f"git apply {out}/patch.diff || git apply --3way {out}/patch.diff")
+        if rc != 0:
+            print(f"{pid}-{k}: patch.diff does not apply on /repo HEAD: {o[-300:]}", flush=True)
+            clean()
+            continue
+        rc, o = sh(with_jobs(demo_cmd))
+        res["demo_fails_with_patch"] = rc != 0
         clean()
-        continue
-    rc, o = sh(demo_cmd + jobs if " -j" not in demo_cmd else demo_cmd)
-    res["demo_passes_without_patch"] = rc == 0
-    rc, o = sh(f"git apply {out}/patch.diff || git apply --3way {out}/patch.diff")
-    if rc != 0:
-        print(f"{pid}-{k}: patch.diff does not apply on /repo HEAD: {o[-300:]}", flush=True)
-        clean()
-        continue
-    rc, o = sh(demo_cmd + jobs if " -j" not in demo_cmd else demo_cmd)
-    res["demo_fails_with_patch"] = rc != 0
-    clean()
-    sh(f"git apply {out}/patch.diff || git apply --3way {out}/patch.diff")
-    rc, o = sh(ex_cmd + jobs if " -j" not in ex_cmd else ex_cmd)
-    res["existing_tests_pass_with_patch"] = rc == 0
-    if rc != 0:
-        res["existing_tests_tail"] = o[-1500:]
+        sh(f"git apply {out}/patch.diff || git apply --3way {out}/patch.diff")
+        rc, o = sh(with_jobs(ex_cmd))
+        res["existing_tests_pass_with_patch"] = rc == 0
+        if rc != 0:
+            res["existing_tests_tail"] = o[-1500:]
     # the check, against the patched worktree
     chk = {}
     for tier in ("quick", "thorough"):
